@@ -136,7 +136,7 @@ def worker(args):
     out["timed_out"] = timed_out
     out["wall_s"] = time.time() - t0
     with open(args.out, "w") as f:
-        json.dump(out, f)
+        json.dump(out, f, default=repr)
     return 0
 
 
